@@ -607,7 +607,16 @@ func TestC12Auth(t *testing.T) {
 		}
 		tg := targetFor(t, opts, false)
 		rt := &countingRT{}
-		p := &proxy.HTTPProxy{Stats: wire.Stats(), Transport: rt, Lookup: func(*http.Request) *route.Target { return tg }, AuthSchemes: schemes}
+		// a fabio that was started without any proxy.auth has no scheme at all: a route that asks
+		// for one is closed to everybody
+		configured := schemes
+		switch rapid.IntRange(0, 5).Draw(t, "no-schemes-configured") {
+		case 0:
+			configured = nil
+		case 1:
+			configured = map[string]auth.AuthScheme{}
+		}
+		p := &proxy.HTTPProxy{Stats: wire.Stats(), Transport: rt, Lookup: func(*http.Request) *route.Target { return tg }, AuthSchemes: configured}
 		req := httptest.NewRequest("GET", "http://example.com/x", nil)
 		req.RemoteAddr = "10.1.1.1:999"
 		user, pass, credKind := "", "", rapid.SampledFrom([]string{"right", "right", "wrongpw", "shiftedsplit", "unknownuser", "none", "malformed", "emptypw", "derivedpw"}).Draw(t, "cred")
@@ -651,7 +660,10 @@ func TestC12Auth(t *testing.T) {
 		rec := httptest.NewRecorder()
 		p.ServeHTTP(rec, req)
 		hx.Eval()
-		exists := scheme == "basic1" || scheme == "basic2"
+		exists := (scheme == "basic1" || scheme == "basic2") && len(configured) > 0
+		if len(configured) == 0 && scheme != "" {
+			hx.Class("auth:route-asks-for-a-scheme-but-none-is-configured")
+		}
 		// reference: the pair the Authorization header denotes (cut at the first
 		// colon) is in the file
 		valid := false
@@ -894,5 +906,67 @@ func TestC12TCPInstancesWithDifferentRules(t *testing.T) {
 		}
 		hx.NonTrivial(fmt.Sprintf("two-instances|%s|%s|%s", admit, reject, handler))
 		hx.Class("tcp:instances-with-different-rules")
+	})
+}
+
+// The scheme comes from the command line (proxy.auth "name=..;type=basic;file=..;refresh=..[;realm=..]"):
+// whatever else the option text says or leaves out, credentials removed from the file stop working
+// after the refresh interval.
+func TestC12AuthFromOptions(t *testing.T) {
+	dir := t.TempDir()
+	hx.Check(t, hx.Scale(3, 24), func(t *rapid.T) {
+		file := filepath.Join(dir, fmt.Sprintf("htpasswd-opt-%d", time.Now().UnixNano()))
+		write := func(model map[string]string) {
+			var lines []string
+			for u, p := range model {
+				sum := sha1.Sum([]byte(p))
+				lines = append(lines, u+":{SHA}"+base64.StdEncoding.EncodeToString(sum[:]))
+			}
+			tmp := file + ".tmp"
+			os.WriteFile(tmp, []byte(strings.Join(lines, "\n")+"\n"), 0o600)
+			os.Rename(tmp, file)
+			mt := time.Now().Add(time.Duration(rapid.IntRange(-3600, 3600).Draw(t, "mtime")) * time.Second)
+			os.Chtimes(file, mt, mt)
+		}
+		write(map[string]string{"alice": "secret", "bob": "builder"})
+		opt := "name=b;type=basic;file=" + file + ";refresh=1s"
+		realm := rapid.SampledFrom([]string{"", ";realm=my realm", ";realm="}).Draw(t, "realm")
+		opt += realm
+		cfg, err := config.Load([]string{"fabio", "-proxy.auth", opt}, nil)
+		if err != nil {
+			t.Fatalf("config rejected: %v (%q)", err, opt)
+		}
+		schemes, err := auth.LoadAuthSchemes(cfg.Proxy.AuthSchemes)
+		if err != nil {
+			t.Fatalf("LoadAuthSchemes: %v (%q)", err, opt)
+		}
+		tg := targetFor(t, map[string]string{"auth": "b"}, false)
+		rt := &countingRT{}
+		p := &proxy.HTTPProxy{Stats: wire.Stats(), Transport: rt, Lookup: func(*http.Request) *route.Target { return tg }, AuthSchemes: schemes}
+		try := func(u, pw string) int {
+			req := httptest.NewRequest("GET", "http://example.com/x", nil)
+			req.RemoteAddr = "10.1.1.1:999"
+			req.SetBasicAuth(u, pw)
+			rec := httptest.NewRecorder()
+			p.ServeHTTP(rec, req)
+			hx.Eval()
+			return rec.Code
+		}
+		if c := try("alice", "secret"); c != 200 {
+			t.Fatalf("valid credentials answered %d (proxy.auth %q)", c, opt)
+		}
+		write(map[string]string{"bob": "builder"}) // alice is removed
+		deadline := time.Now().Add(6 * time.Second)
+		for try("alice", "secret") != 401 {
+			if time.Now().After(deadline) {
+				t.Fatalf("proxy.auth %q: a user removed from the htpasswd file is still admitted 6s later (refresh=1s)", opt)
+			}
+			time.Sleep(50 * time.Millisecond)
+		}
+		if c := try("bob", "builder"); c != 200 {
+			t.Fatalf("a user who is still in the file answered %d after the reload", c)
+		}
+		hx.NonTrivial("auth-from-options|" + realm)
+		hx.Class("auth:scheme-from-option-text")
 	})
 }
